@@ -606,6 +606,7 @@ def run(repo: Repo, R: Report) -> None:
         ok, why = _config_id_pairs(repo, rel, qn)
         R.check(ok, r_same, rel, qn, "semantic_pairs.append((node_uuid, node_semantic_id))", f"the pairs hashed into config_id are not (node uuid, node semantic id): {why}", f0.lineno)
     same_node_fields(repo, R)
+    node_configs_pass_through(repo, R)
     for prefix, (home_rel, home_fn) in PREFIX_OWNERS.items():
         owners = []
         for mod, qn, f in repo.all_functions():
@@ -759,12 +760,13 @@ class Flow:
     object whose children are the children of the original (that is how the query treats copies anyway), a deep copy
     is new at every depth.  ``feeds(e)`` is the transitive data dependence of *e* (parameters and calls)."""
 
-    def __init__(self, fn: ast.AST, budget: int = 20000, identity: bool = False):
+    def __init__(self, fn: ast.AST, budget: int = 20000, identity: bool = False, elem_alias: bool = False):
         from ..cfg import CFG
 
         self.fn = fn
         self.budget0 = budget
         self.identity = identity  # track object identity: a deep copy is a new object at every depth
+        self.elem_alias = elem_alias  # a loop variable over a local list is an alias of its elements (stores through it count)
         self.g = CFG(fn)
         self.budget = budget
         a = fn.args
@@ -1090,7 +1092,7 @@ class Flow:
                 for u in self._same_object(nm, objs, st):
                     if kind == "alias":
                         continue
-                    if kind == "store":
+                    if kind in ("store", "estore"):
                         expr(getattr(st, "value", None), u)
                         cur = site
                         while isinstance(cur, ast.Subscript):
@@ -1122,6 +1124,23 @@ class Flow:
                             out.append((root.id, "store", el, n))
                 if isinstance(n, ast.Assign) and isinstance(n.value, ast.Name) and len(n.targets) == 1 and isinstance(n.targets[0], ast.Name):
                     out.append((n.value.id, "alias", n.targets[0], n))
+            if self.elem_alias:
+                # `for <t> in <X>` / `for i, <t> in enumerate(<X>)`: what is stored into / put into <t> inside the loop is
+                # stored into an element of <X> (kinds "estore" / "ecall")
+                elem_of: Dict[str, Set[str]] = {}
+                for n in walk_no_nested(self.fn):
+                    if not isinstance(n, (ast.For, ast.AsyncFor)):
+                        continue
+                    it, tgt = n.iter, n.target
+                    if isinstance(it, ast.Call) and isinstance(it.func, ast.Name) and it.func.id == "enumerate" and it.args and isinstance(tgt, ast.Tuple) and len(tgt.elts) == 2:
+                        it, tgt = it.args[0], tgt.elts[1]
+                    while isinstance(it, ast.Call) and isinstance(it.func, ast.Name) and it.func.id in ("list", "tuple", "reversed", "iter") and len(it.args) == 1:
+                        it = it.args[0]
+                    if isinstance(it, ast.Name) and isinstance(tgt, ast.Name):
+                        elem_of.setdefault(tgt.id, set()).add(it.id)
+                for nm, kind, site, st in list(out):
+                    if kind in ("store", "call") and nm in elem_of:
+                        out += [(x, "e" + kind, site, st) for x in sorted(elem_of[nm])]
             self._mut = out
         return self._mut
 
@@ -1142,13 +1161,19 @@ class Flow:
             uses = self._same_object(name, objs, st)
             if not uses:
                 continue
+            full_path = path
             for u in uses:
                 q = lambda x, p: self._q(x, p, u, stack)  # noqa: E731
+                path = full_path
+                if kind in ("estore", "ecall"):  # through a loop variable: one level below the list
+                    if path[0].startswith("f:") or len(path) < 2:
+                        continue
+                    path = path[1:]
                 if kind == "alias":
                     if depth < 3:
                         alias_defs = {d.id for d in self._all_defs(site.id) if d.ast is st}
                         out |= self._stored_into(site.id, alias_defs, path, stack, depth + 1)
-                elif kind == "store":
+                elif kind in ("store", "estore"):
                     accs: List[str] = []
                     cur = site
                     while isinstance(cur, ast.Subscript):
@@ -1187,12 +1212,12 @@ class Flow:
         return out
 
 
-def flow_of(repo: Repo, rel: str, qualname: str, identity: bool = False, **nf_opts) -> Flow:
+def flow_of(repo: Repo, rel: str, qualname: str, identity: bool = False, elem_alias: bool = False, **nf_opts) -> Flow:
     """The (cached) value-origin analysis of the normal form of a function."""
     cache = repo.__dict__.setdefault("_c04_flow_cache", {})
-    key = (rel, qualname, identity, tuple(sorted(nf_opts.items())))
+    key = (rel, qualname, identity, elem_alias, tuple(sorted(nf_opts.items())))
     if key not in cache:
-        cache[key] = Flow(nfunc(repo, rel, qualname, **nf_opts), identity=identity)
+        cache[key] = Flow(nfunc(repo, rel, qualname, **nf_opts), identity=identity, elem_alias=elem_alias)
     return cache[key]
 
 
@@ -1866,6 +1891,16 @@ class Order:
                 out.add(("unknown", f"{norm(root)[:30]}.{attr}"))
         return out or {FIXED}
 
+    def _method_of(self, base: ast.AST, meth: str, use: int, view: bool) -> Set[Tag]:
+        """("method", p, name, mode) when *base* is (an alias of) the parameter p of the function; else nothing."""
+        out: Set[Tag] = set()
+        if not isinstance(base, ast.Name) or self._bound_in_expression(base):
+            return out
+        for root, rest in self.flow._q(base, (), use, frozenset()):
+            if isinstance(root, ast.Name) and not rest and root.id in self.flow.params:
+                out.add(("method", root.id, meth, self._mode(view)))
+        return out
+
     def _bound_in_expression(self, e: ast.Name) -> bool:
         cur: ast.AST = e
         while True:
@@ -1950,8 +1985,11 @@ class Order:
             return self._element(e, use, view, stack)
         if self.repo.resolve_call(self.mod, e):
             return self._callee(e, (), use, view, stack)
+        # a method of an object the function was handed (cls.get_x(), spec.keys_in_order()): the order is whatever that
+        # method returns - the receiver's class decides, the caller of this query resolves it (generated sweep classes)
+        out: Set[Tag] = self._method_of(f.value, meth, use, view) if meth is not None else set()
         # a function from outside the package: assumed to keep the order of the iterables it is handed
-        out: Set[Tag] = {FIXED}
+        out = out or {FIXED}
         for a in list(e.args) + [kw.value for kw in e.keywords]:
             out |= {t for t in rec(a, False) if t[0] not in ("fixed", "sorted", "unknown")}
         return out
@@ -1986,7 +2024,7 @@ class Order:
             if pos and pos[0] in ("self", "cls") and isinstance(getattr(tf, "_parent", None), ast.ClassDef) and isinstance(call.func, ast.Attribute):
                 pos = pos[1:]
             for t in got:
-                if t[0] not in ("param", "attr"):
+                if t[0] not in ("param", "attr", "method"):
                     out.add(t)
                     continue
                 p, mode = t[1], t[-1]
@@ -1997,6 +2035,8 @@ class Order:
                     out.add(FIXED if p in {x.arg for x in _params_list(tf)} and p not in ("self", "cls") else ("unknown", f"{p} of {tf.name}"))
                 elif t[0] == "attr":
                     out |= self._attr_of(arg, t[2], use, mode == "view", stack)
+                elif t[0] == "method":
+                    out |= self._method_of(arg, t[2], use, mode == "view") or {("unknown", f"{norm(arg)[:30]}.{t[2]}()")}
                 else:
                     out |= self.of(arg, use, mode == "view", stack)
         return out or {("unknown", norm(call.func)[:40] + "(...)")}
@@ -2074,6 +2114,8 @@ class Order:
             uses = fl._same_object(name, objs, st)
             if not uses:
                 continue
+            if kind in ("estore", "ecall"):
+                continue  # writes into an element: the order of the list is not touched
             if kind == "alias":
                 if depth < 3:
                     alias_defs = {d.id for d in fl._all_defs(site.id) if d.ast is st}
@@ -2107,6 +2149,8 @@ def _show_tag(t: Tag) -> str:
         return f"order of the caller's mapping `{t[1]}`" if t[2] == "view" else f"order of parameter `{t[1]}`"
     if t[0] == "attr":
         return f"order of `{t[1]}.{t[2]}`" + (" (a mapping)" if t[3] == "view" else "")
+    if t[0] == "method":
+        return f"order of what `{t[1]}.{t[2]}()` returns"
     if t[0] == "set":
         return f"set iteration order of `{t[1]}`"
     if t[0] == "unknown":
@@ -2174,6 +2218,13 @@ def sweep_definition_anchors(repo: Repo) -> Tuple[ast.AST, List[ast.AST]]:
     return builders[0], factories
 
 
+def _is_member_call(flow: Flow, e: ast.AST) -> bool:
+    """`<p>.<method>(...)` with <p> a parameter of the function: whatever the class of the object handed in returns -
+    possibly a list (cls.get_context_requirements()), so its order has to be accounted for."""
+    return (isinstance(e, ast.Call) and isinstance(e.func, ast.Attribute) and isinstance(e.func.value, ast.Name) and e.func.value.id in flow.params
+            and e.func.attr not in VIEW_METHODS | {"get", "pop", "setdefault", "copy"})
+
+
 def _hashed_sequences(flow: Flow, e: ast.AST) -> List[ast.AST]:
     """Expressions that can evaluate to a list / tuple somewhere inside the structure *e* evaluates to (through
     mappings, sequences, locals, stores and updates)."""
@@ -2189,7 +2240,7 @@ def _hashed_sequences(flow: Flow, e: ast.AST) -> List[ast.AST]:
             below = flow.origins(x, (ANY,))
         except AnalysisError:
             return
-        if any(not rest and _is_sequence_like(root) for root, rest in top):
+        if any(not rest and (_is_sequence_like(root) or _is_member_call(flow, root)) for root, rest in top):
             out.append(x)
         for root, rest in sorted(below, key=lambda l: (getattr(l[0], "lineno", 0), getattr(l[0], "col_offset", 0))):
             if not rest:
@@ -2244,6 +2295,72 @@ def _bad_order_tags(repo: Repo, fn0: ast.AST, tags: Set[Tag], depth: int = 0) ->
     return sorted(set(bad))
 
 
+def _generated_classes(repo: Repo, factories0: List[ast.AST]) -> List[Tuple[ast.AST, ast.ClassDef]]:
+    """(factory, class) for every class created inside a sweep class factory (original tree)."""
+    return [(f0, c) for f0 in factories0 for c in ast.walk(f0) if isinstance(c, ast.ClassDef)]
+
+
+def _class_member_orders(repo: Repo, factories0: List[ast.AST], tags: Set[Tag], recv: Set[str], depth: int = 0) -> Tuple[List[str], Set[str], Set[Tag]]:
+    """Resolve the order tags that name a member of the generated sweep class (the receiver *recv* of the builder / of
+    one of the class's methods): an attribute is followed to the value the class factory binds in the class body (in the
+    factory's frame), a method to what it returns (looked up in the class body, then along the bases), recursively.
+    Returns (descriptions of cosmetic orders found, kinds of order seen, the tags that are not class members)."""
+    bad: List[str] = []
+    shown: Set[str] = set()
+    rest: Set[Tag] = set()
+    mod = repo.module(SWEEP)
+    for t in sorted(tags):
+        if t[0] == "attr" and t[1] in recv:
+            # attribute of the generated class: the value bound in the class body, in the factory's frame
+            found = False
+            for f0 in factories0:
+                fflow = flow_of(repo, SWEEP, qualname_of(f0))
+                for c in [c for c in ast.walk(fflow.fn) if isinstance(c, ast.ClassDef)]:
+                    for st in c.body:
+                        tg = st.targets if isinstance(st, ast.Assign) else [st.target] if isinstance(st, ast.AnnAssign) and st.value is not None else []
+                        if any(isinstance(x, ast.Name) and x.id == t[2] for x in tg):
+                            found = True
+                            sub = order_of(repo, SWEEP, fflow, st.value, view=t[3] == "view")
+                            shown |= {x[0] for x in sub}
+                            bad += _bad_order_tags(repo, f0, sub)
+            if not found:
+                shown.add("fixed")  # never bound by a generated class: the default of the read
+        elif t[0] == "method" and t[1] in recv:
+            # method of the generated class: the order of what it returns, for every generated class that has it
+            label = f"{t[1]}.{t[2]}()"
+            targets: List[Tuple[object, ast.AST]] = []
+            for _f0, c in _generated_classes(repo, factories0):
+                hit = repo.method(mod, c, t[2])
+                if hit is not None and not any(hit[1] is x[1] for x in targets):
+                    targets.append(hit)
+            if not targets or depth >= 3:
+                bad.append(f"unknown order of `{label}` (no generated sweep class defines or inherits it)" if not targets else f"unknown order of `{label}`")
+                continue
+            for tm, tf in targets:
+                try:
+                    mflow = flow_of(repo, tm.rel, qualname_of(tf))
+                except AnalysisError:
+                    bad.append(f"unknown order of `{label}`")
+                    continue
+                rets = [n for n in walk_no_nested(mflow.fn) if isinstance(n, ast.Return) and n.value is not None]
+                if not rets or any(isinstance(n, (ast.Yield, ast.YieldFrom)) for n in walk_no_nested(mflow.fn)):
+                    bad.append(f"unknown order of `{label}`")
+                    continue
+                static = any(isinstance(d, ast.Name) and d.id == "staticmethod" for d in tf.decorator_list)
+                mpos = [a.arg for a in tf.args.posonlyargs + tf.args.args]
+                mrecv = {mpos[0]} if mpos and not static else set()
+                for ret in rets:
+                    sub = order_of(repo, tm.rel, mflow, ret.value, view=t[3] == "view")
+                    b2, s2, r2 = _class_member_orders(repo, factories0, sub, mrecv, depth + 1)
+                    bad += [f"{x} (returned by `{qualname_of(tf)}`)" for x in b2]
+                    shown |= s2 | {x[0] for x in r2 if x[0] in ("sorted", "fixed", "set", "unknown")}
+                    # what the method's own parameters show was accounted for at the call (its arguments)
+                    bad += [f"{_show_tag(x)} (returned by `{qualname_of(tf)}`)" for x in r2 if x[0] in ("set", "unknown")]
+        else:
+            rest.add(t)
+    return bad, shown, rest
+
+
 def sweep_list_order(repo: Repo, R: Report, rule: str) -> None:
     """C04-D2 list-order provenance of the published sweep definition: every list inside the mapping the builder
     returns is sorted, written down in the program, or in an order the configuration text cannot change (the
@@ -2260,27 +2377,8 @@ def sweep_list_order(repo: Repo, R: Report, rule: str) -> None:
         for seq in _hashed_sequences(bflow, ret.value):
             n += 1
             tags = order_of(repo, SWEEP, bflow, seq)
-            bad: List[str] = []
-            shown: Set[str] = set()
-            rest: Set[Tag] = set()
-            for t in tags:
-                if t[0] == "attr" and bparams and t[1] == bparams[0] or (t[0] == "attr" and t[1] in ("cls", "self")):
-                    # attribute of the generated class: the value bound in the class body, in the factory's frame
-                    found = False
-                    for f0 in factories0:
-                        fflow = flow_of(repo, SWEEP, qualname_of(f0))
-                        for c in [c for c in ast.walk(fflow.fn) if isinstance(c, ast.ClassDef)]:
-                            for st in c.body:
-                                tg = st.targets if isinstance(st, ast.Assign) else [st.target] if isinstance(st, ast.AnnAssign) and st.value is not None else []
-                                if any(isinstance(x, ast.Name) and x.id == t[2] for x in tg):
-                                    found = True
-                                    sub = order_of(repo, SWEEP, fflow, st.value, view=t[3] == "view")
-                                    shown |= {x[0] for x in sub}
-                                    bad += _bad_order_tags(repo, f0, sub)
-                    if not found:
-                        shown.add("fixed")  # never bound by a generated class: the default of the read
-                else:
-                    rest.add(t)
+            recv = {"cls", "self"} | ({bparams[0]} if bparams else set())
+            bad, shown, rest = _class_member_orders(repo, factories0, tags, recv)
             shown |= {x[0] for x in rest}
             bad += _bad_order_tags(repo, builder0, rest)
             par = getattr(seq, "_parent", None)
@@ -2291,6 +2389,122 @@ def sweep_list_order(repo: Repo, R: Report, rule: str) -> None:
                     f"a list hashed into the node semantic id inherits {'; '.join(sorted(set(bad)))[:200]}: reordering the keys of the sweep's mapping (or another hash seed) changes config_id", getattr(seq, "lineno", bfn.lineno))
     if n == 0:
         raise AnalysisError("no list found inside the published sweep definition (dependencies.required_external_parameters / context_keys expected)")
+
+
+# ---------------------------------------------------------------------------
+# round 5: D4c - the node configurations reach canonicalisation as they were parsed, on every path
+# ---------------------------------------------------------------------------
+COPY_CALLS = MAP_COPIES | SEQ_COPIES | {"copy", "deepcopy"}
+NON_CARRIER_CALLS = {"isinstance", "len", "all", "any", "print", "type", "hasattr", "callable", "str", "repr", "bool"}
+
+
+def _schema_keys_read(fn: ast.AST) -> Set[str]:
+    """Constant mapping keys *fn* reads (subscripts, .get, `in` tests), nested scopes included."""
+    out: Set[str] = set()
+    for n in ast.walk(fn):
+        if isinstance(n, ast.Subscript) and isinstance(n.slice, ast.Constant) and isinstance(n.slice.value, str):
+            out.add(n.slice.value)
+        elif isinstance(n, ast.Call) and isinstance(n.func, ast.Attribute) and n.func.attr == "get" and n.args and isinstance(n.args[0], ast.Constant) and isinstance(n.args[0].value, str):
+            out.add(n.args[0].value)
+    return out
+
+
+def _is_node_field_of_raw_config(rest: Tuple[str, ...], depth: int) -> bool:
+    """The remaining path of a leaf says "field (to *depth*-1 levels) of an element of pipeline.nodes"."""
+    return len(rest) >= depth + 2 and rest[-depth - 2:-depth] == ("f:pipeline", "f:nodes") and not rest[-depth].startswith("f:")
+
+
+def _rewritten_leaves(repo: Repo, rel: str, flow: Flow, e: ast.AST, depth: int, level: int = 0) -> Optional[List[Tuple[ast.AST, str]]]:
+    """None when *e* does not carry node configurations read from `<config>['pipeline']['nodes']`; else the values a
+    field (*depth* levels below the node list) can hold that are NOT what the parsed configuration held there:
+    [(expression that makes the value, description)].  A copy (dict(x), list(x), x.copy(), deepcopy) is looked through;
+    a value returned by a function of the package is followed into it."""
+    path = (ANY,) * depth
+    try:
+        leaves = flow.origins(e, path)
+    except AnalysisError:
+        return None
+    if level == 0 and not any(_is_node_field_of_raw_config(rest, depth) for _root, rest in leaves):
+        return None
+    bad: List[Tuple[ast.AST, str]] = []
+    todo = [(root, rest, 0) for root, rest in leaves]
+    seen: Set[Tuple[int, Tuple[str, ...]]] = set()
+    while todo:
+        root, rest, peeled = todo.pop()
+        if (id(root), rest) in seen:
+            continue
+        seen.add((id(root), rest))
+        if not rest:
+            # a value made here: a copy of something is that something
+            is_copy = isinstance(root, ast.Call) and call_attr(root) in COPY_CALLS and not root.keywords and (len(root.args) == 1 or (not root.args and isinstance(root.func, ast.Attribute) and root.func.attr == "copy"))
+            if is_copy and peeled < 4:
+                inner = root.args[0] if root.args else root.func.value  # type: ignore[union-attr]
+                try:
+                    todo += [(r2, p2, peeled + 1) for r2, p2 in flow.origins(inner)]
+                    continue
+                except AnalysisError:
+                    pass
+            if isinstance(root, ast.Name) and peeled:
+                continue  # a copy of a whole raw object was made above: nothing to look through
+            bad.append((root, f"`{norm(root)[:60]}`"))
+            continue
+        if len(rest) < depth or rest[-depth].startswith("f:"):
+            bad.append((root, f"`{_show_leaf((root, rest))}` (not a field of a node of the parsed configuration)"))
+            continue
+        if isinstance(root, ast.Call) and level < 2:
+            targets = [(tm, tf) for tm, tf in repo.resolve_call(repo.module(rel), root) if isinstance(tf, FuncNode) and tm.defs.get(qualname_of(tf)) is tf]
+            for tm, tf in targets:
+                try:
+                    sub = flow_of(repo, tm.rel, qualname_of(tf))
+                except AnalysisError:
+                    continue
+                for ret in [n for n in walk_no_nested(sub.fn) if isinstance(n, ast.Return) and n.value is not None]:
+                    try:
+                        sub_leaves = sub.origins(ret.value, rest)
+                    except AnalysisError:
+                        continue
+                    for r2, p2 in sub_leaves:
+                        if not p2 and not (isinstance(r2, ast.Call) and call_attr(r2) in COPY_CALLS):
+                            bad.append((root, f"`{norm(r2)[:50]}` made in {qualname_of(tf)}"))
+    return bad
+
+
+def node_configs_pass_through(repo: Repo, R: Report) -> None:
+    """C04-D4c: between the parsed YAML mapping and the consumers of the node list (Pipeline construction, inspection,
+    canonicalisation) nobody rewrites a node."""
+    r = R.rule("C04-D4c-node-configs-pass-through", "every function of the package that takes the node list out of a parsed configuration (`<config>['pipeline']['nodes']`: the YAML loader, the CLI, the inspection and graph builders) hands the node mappings on as they were parsed - each field of each node it returns or passes to a call holds the value the parsed configuration held there (a copy is fine, a validated / defaulted / coerced replacement is not): inspect, Pipeline(...) and `semantiva run` canonicalise the same YAML through different such functions, so a value that one of them rewrites (None -> {}, a default filled in) gives the same configuration different node uuids and ids on different paths", 3)
+    for mod, qn, f in sorted(repo.all_functions(), key=lambda t: (t[0].rel, getattr(t[2], "lineno", 0))):
+        if mod.rel.startswith(("semantiva/examples/", "semantiva/trace/")) or mod.defs.get(qn) is not f:
+            continue
+        if not {"pipeline", "nodes"} <= _schema_keys_read(f):
+            continue
+        try:
+            flow = flow_of(repo, mod.rel, qn, elem_alias=True)
+        except AnalysisError:
+            continue
+        fn = flow.fn
+        cands: List[ast.AST] = []
+        for n in walk_no_nested(fn):
+            if isinstance(n, ast.Call) and call_attr(n) not in NON_CARRIER_CALLS and not _message_context(n, fn):
+                cands += [a for a in list(n.args) + [kw.value for kw in n.keywords] if not isinstance(a, ast.Starred)]
+            elif isinstance(n, ast.Return) and n.value is not None:
+                cands += list(n.value.elts) if isinstance(n.value, ast.Tuple) else [n.value]
+        done: Set[str] = set()
+        for e in cands:
+            if isinstance(e, (ast.Constant, ast.JoinedStr, ast.Lambda, ast.Compare, ast.BoolOp, ast.UnaryOp)) or norm(e) in done:
+                continue
+            found: Optional[List[Tuple[ast.AST, str]]] = None
+            for depth in (2, 3):
+                got = _rewritten_leaves(repo, mod.rel, flow, e, depth)
+                if got is not None:
+                    found = (found or []) + got
+            if found is None:
+                continue
+            done.add(norm(e))
+            site = found[0][0] if found else e
+            st = stmt_of(site) if found else stmt_of(e)
+            R.check(not found, r, mod.rel, qn, f"node configurations handed on: `{norm(e)[:70]}`",
+                    f"`{norm(st)[:90]}`: a field of a node mapping taken from `['pipeline']['nodes']` is replaced by " + "; ".join(sorted({d for _x, d in found or []}))[:200] + " before the node list is handed on: this function stands between the parsed YAML and the identity functions on one of the paths (loader / CLI run / inspect / Pipeline), the others canonicalise the node as parsed - the same configuration gets different node uuids, semantic id and config id on the two paths whenever the replacement differs from the parsed value (an empty `parameters:` block, an omitted key)", getattr(st, "lineno", 0))
 
 
 PUBLIC_ENTRIES = {
